@@ -69,7 +69,8 @@ static struct ment M[MAXV];
 static int Mn;                  /* number of present values */
 static int nv, no, desc, sigmode;
 static cstl_map_t *map;         /* own heap block; never moved after init */
-static int cmp_cookie, clr_cookie;
+#define CLR_COOKIE_VALUE 0x636c7221
+static int cmp_cookie, clr_cookie = CLR_COOKIE_VALUE;
 static uint64_t hist;           /* hash of the ops applied so far (history signature) */
 static int cleared_once;        /* a clear happened earlier in this state's history */
 static uint64_t ncmp;
@@ -292,6 +293,17 @@ static cstl_map_iterator_t other_it;
 static struct kobj *other_k;
 static int foreign_val[2];
 
+/* "the caller changes a key object it still owns" (do_rekey below): no call on any map between the two calls, and
+ * violations seen by the second call are reported under map.changed-probe-key.* */
+static int no_other, rekeyed;
+static const char *RK(const char *key)
+{
+    static char b[160];
+    if (!rekeyed) return key;
+    snprintf(b, sizeof(b), "map.changed-probe-key.%s", key + 4);        /* every key starts with "map." */
+    return b;
+}
+
 #define ARR(ep, what) do {                                                      \
         if ((ep) == EP_INSERT) VRT_COUNT("op.insert.arrives." what);            \
         else if ((ep) == EP_FIND) VRT_COUNT("op.find.arrives." what);           \
@@ -375,7 +387,8 @@ static void arrive(int ep, int v, struct kobj *k)
     int kind = (int)(sel & 15), u, j, names;
     struct itdesc d;
 
-    if (lean && (kind == 11 || kind == 13)) kind = 2;
+    if ((lean || no_other) && (kind == 11 || kind == 13)) kind = 2;
+    if (no_other && kind == 14) kind = 2;
     if (((kind >= 6 && kind <= 8) || kind == 12 || kind == 15) && last_d[v].how == IT_SENTINEL) kind = 2;      /* nothing produced for v yet: carried */
     if (kind == 9 || kind == 10) {
         u = (v + 1 + (int)((sel >> 4) % (unsigned)(nv - 1))) % nv;
@@ -502,14 +515,14 @@ static void do_insert(int v, int ko, int vo, int with_it, cstl_map_iterator_t *o
     vrt_ev_begin();
     r = cstl_map_insert(map, k, x, with_it ? &CI : NULL);
     if (present) {
-        VRT_CHECK(r == 1, "map.insert.existing.ret", "insert of existing value %d returned %d, expected 1", v, r);
+        VRT_CHECK(r == 1, RK("map.insert.existing.ret"), "insert of existing value %d returned %d, expected 1", v, r);
         if (with_it) {
-            VRT_CHECK(!cstl_map_iterator_eq(&CI, END), "map.insert.existing.iter-is-end",
+            VRT_CHECK(!cstl_map_iterator_eq(&CI, END), RK("map.insert.existing.iter-is-end"),
                       "insert of existing value %d yields the end iterator", v);
-            VRT_CHECK(CI.key == ok, "map.insert.existing.iter-key",
+            VRT_CHECK(CI.key == ok, RK("map.insert.existing.iter-key"),
                       "insert of existing value %d: iterator key %p is not the stored key pointer %p (inserted key object %p)",
                       v, CI.key, (void *)ok, (void *)k);
-            VRT_CHECK(CI.val == ov, "map.insert.existing.iter-val",
+            VRT_CHECK(CI.val == ov, RK("map.insert.existing.iter-val"),
                       "insert of existing value %d: iterator value %p is not the stored value pointer %p (offered value %p)",
                       v, CI.val, (void *)ov, (void *)x);
         }
@@ -527,13 +540,13 @@ static void do_insert(int v, int ko, int vo, int with_it, cstl_map_iterator_t *o
             check_find(v, (ko + 1) % no, "insert.existing.then-find", NULL);
         }
     } else {
-        VRT_CHECK(r == 0, "map.insert.new.ret", "insert of new value %d returned %d, expected 0", v, r);
+        VRT_CHECK(r == 0, RK("map.insert.new.ret"), "insert of new value %d returned %d, expected 0", v, r);
         if (with_it) {
-            VRT_CHECK(!cstl_map_iterator_eq(&CI, END), "map.insert.new.iter-is-end",
+            VRT_CHECK(!cstl_map_iterator_eq(&CI, END), RK("map.insert.new.iter-is-end"),
                       "insert of new value %d yields the end iterator", v);
-            VRT_CHECK(CI.key == k, "map.insert.new.iter-key", "insert of new value %d: iterator key %p, inserted %p",
+            VRT_CHECK(CI.key == k, RK("map.insert.new.iter-key"), "insert of new value %d: iterator key %p, inserted %p",
                       v, CI.key, (void *)k);
-            VRT_CHECK(CI.val == x, "map.insert.new.iter-val", "insert of new value %d: iterator value %p, inserted %p",
+            VRT_CHECK(CI.val == x, RK("map.insert.new.iter-val"), "insert of new value %d: iterator value %p, inserted %p",
                       v, CI.val, (void *)x);
         }
         M[v].blk = alloc_one("insert.new");
@@ -576,11 +589,11 @@ static void do_erase(int v, int po, int with_it, int level)
     vrt_ev_begin();
     r = cstl_map_erase(map, k, with_it ? &CI : NULL);
     if (present) {
-        VRT_CHECK(r == 0, "map.erase.present.ret", "erase of present value %d returned %d, expected 0", v, r);
+        VRT_CHECK(r == 0, RK("map.erase.present.ret"), "erase of present value %d returned %d, expected 0", v, r);
         if (with_it) {
-            VRT_CHECK(CI.key == ok, "map.erase.present.iter-key",
+            VRT_CHECK(CI.key == ok, RK("map.erase.present.iter-key"),
                       "erase of value %d reports key pointer %p, the removed entry stored %p", v, CI.key, (void *)ok);
-            VRT_CHECK(CI.val == ov, "map.erase.present.iter-val",
+            VRT_CHECK(CI.val == ov, RK("map.erase.present.iter-val"),
                       "erase of value %d reports value pointer %p, the removed entry stored %p", v, CI.val, (void *)ov);
             if (cstl_map_iterator_eq(&CI, END)) VRT_COUNT("op.erase.present.iter-detached");
         }
@@ -593,8 +606,8 @@ static void do_erase(int v, int po, int with_it, int level)
         VRT_COUNT("op.erase.present");
         if (level >= 1) check_find(v, po, "erase.then-find", NULL);
     } else {
-        VRT_CHECK(r == -1, "map.erase.absent.ret", "erase of absent value %d returned %d, expected -1", v, r);
-        if (with_it) { is_end(&CI, "erase", v); it_now_end(); }
+        VRT_CHECK(r == -1, RK("map.erase.absent.ret"), "erase of absent value %d returned %d, expected -1", v, r);
+        if (with_it) { is_end(&CI, rekeyed ? "changed-probe-key.erase" : "erase", v); it_now_end(); }
         alloc_none("erase.absent");
         VRT_COUNT("op.erase.absent");
     }
@@ -625,6 +638,67 @@ static void do_erase_it(int v, int po, int vo, int via_insert, int level)
     VRT_COUNT("op.erase_iterator");
     if (level >= 1) check_find(v, po, "erase_iterator.then-find", NULL);
     check_size("erase_iterator");
+}
+
+/* ---- the caller changes a key object it still owns ----
+ * A key object that is not stored in the map is the caller's.  find(P) misses while *P holds the absent value a; the
+ * caller rewrites *P to value b (absent or present; below, between or above the stored keys) and calls insert(P) /
+ * find(P) / erase(P) with the very same pointer, no call on any map in between.  The model goes by the CONTENT of *P at
+ * each call: the second call behaves exactly like one with any other key object of value b.  (Stored key objects are
+ * never changed.)  second: 0 insert, 1 find or erase (by the history hash), 2 find, 3 erase.  Returns 0 = not applicable. */
+static int tied_vo(int v, int o, int nobjs);
+static int do_rekey(int b, int second, int vo, int with_it, int level)
+{
+    const unsigned sel = (unsigned)(vrt_mix(hist, 0x4e4b00u + (unsigned)b) >> 11);
+    int a = -1, oa, ob = -1, u, n = 0, pick, lo = 0, hi = 0;
+    struct kobj *k;
+
+    for (u = 0; u < no && ob < 0; u++) {        /* a slot of b that does not hold the stored key object (nor the NULL pointer) */
+        const int o = (int)(((sel >> 8) + (unsigned)u) % (unsigned)no);
+        if (is_null_key(b, o) || (M[b].present && M[b].k != NULL && M[b].k->obj == o)) continue;
+        ob = o;
+    }
+    if (ob < 0) return 0;
+    for (u = 0; u < nv; u++) if (u != b && !M[u].present && !(u == 0 && no == 1)) n++;
+    if (n == 0) return 0;
+    pick = (int)(sel % (unsigned)n);
+    for (u = 0; u < nv; u++) if (u != b && !M[u].present && !(u == 0 && no == 1) && pick-- == 0) { a = u; break; }
+    oa = (int)((sel >> 4) % (unsigned)no);
+    if (is_null_key(a, oa)) oa = 1;
+    if (second == 1) second = 2 + (int)((sel >> 6) & 1);
+    if (in_closure) { vo = tied_vo(b, ob, no); with_it = (int)((sel >> 3) & 1); }
+    for (u = b - 1; u >= 0 && !lo; u--) lo = M[u].present;
+    for (u = b + 1; u < nv && !hi; u++) hi = M[u].present;
+
+    no_other = 1;
+    k = getk(a, oa);
+    check_find_x(a, oa, "changed-probe-key.first-find", NULL, 1);      /* misses */
+    /* the caller's object now holds value b (whatever unstored object sat in that slot of b goes) */
+    if (K[b][ob] != NULL) { memset(K[b][ob], 0xa5, sizeof(struct kobj)); vrt_free(K[b][ob]); }
+    K[a][oa] = NULL; K[b][ob] = k;
+    VRT_OP3("map.caller-rewrites-probe-key", "the key object of the miss now holds v%ld (was v%ld), next call: %ld", b, a, second);
+    k->val = b; k->obj = ob;
+    rekeyed = 1;
+    if (second == 0) {
+        if (M[b].present) VRT_COUNT("rekey.insert.existing"); else VRT_COUNT("rekey.insert.new");
+        do_insert(b, ob, vo, with_it, NULL, level);
+    } else if (second == 2) {
+        if (M[b].present) VRT_COUNT("rekey.find.present"); else VRT_COUNT("rekey.find.absent");
+        check_find_x(b, ob, "changed-probe-key.find", NULL, 1);
+    } else {
+        if (M[b].present) VRT_COUNT("rekey.erase.present"); else VRT_COUNT("rekey.erase.absent");
+        do_erase(b, ob, with_it, level);
+    }
+    rekeyed = 0; no_other = 0;
+    {
+        if (lo && hi) VRT_COUNT("rekey.new-content.between-stored-keys");
+        else if (lo) VRT_COUNT("rekey.new-content.above-all-stored-keys");
+        else if (hi) VRT_COUNT("rekey.new-content.below-all-stored-keys");
+        else VRT_COUNT("rekey.new-content.map-empty");
+    }
+    if (a < b) VRT_COUNT("rekey.old-content-smaller"); else VRT_COUNT("rekey.old-content-larger");
+    VRT_COUNT("op.rekey");
+    return 1;
 }
 
 /* ---- nested maps (mode "clear", C15): entries whose value owns a map of its own ----
@@ -712,6 +786,9 @@ static void sub_clear_cb(void *ev, void *p)
     cur_sub->seen++;
     memset(x, 0xa5, sizeof(*x));
     if (cur_sub->hold) cur_sub->held[k] = x; else vrt_free(x);
+    VRT_CHECK(it->key == (const void *)x && it->val == sub_val(cur_sub, k) && p == (void *)cur_sub && cur_sub->magic == SMAGIC,
+              "map.clear.nested.iterator-changed-while-the-callback-runs", "inner clear callback: at its end the iterator argument reads key %p / val %p, at entry %p / %p",
+              it->key, it->val, (void *)x, sub_val(cur_sub, k));
     VRT_COUNT("clear.nested.handed-over");
 }
 /* the owning entry is being destroyed (inside the outer clear callback): clear its map through the library */
@@ -794,12 +871,16 @@ static void clear_cb(void *e, void *p)
 {
     const cstl_map_iterator_t *const i = e;
     const struct kobj *k;
-    int v;
+    const void *const key_at_entry = i != NULL ? i->key : NULL;         /* what the arguments show when the callback starts */
+    void *const val_at_entry = i != NULL ? i->val : NULL;
+    const void *const it_at_entry = i != NULL ? i->_ : NULL;
+    int v, inner_cb = 0;
 
     clr_total++;
     VRT_CHECK(cur_sub == NULL, "map.clear.nested.wrong-callback", "the clear of an inner map invoked the callback given to the clear of the outer map");
     VRT_CHECK(outer_running, "map.clear.callback-outside-its-clear", "clear callback invoked while its clear is not running");
     VRT_CHECK(p == (void *)&clr_cookie, "map.clear.cb-priv", "clear callback got priv %p, expected %p", p, (void *)&clr_cookie);
+    VRT_CHECK(*(const int *)p == CLR_COOKIE_VALUE, "map.clear.priv-changed-while-the-callback-runs", "the caller's object behind the clear priv reads %#x at the start of the callback", (unsigned)*(const int *)p);
     VRT_CHECK(i != NULL, "map.clear.cb-null-iterator", "clear callback got a NULL iterator");
     if (nv <= 64) {
         /* classify by address before touching anything */
@@ -837,10 +918,21 @@ static void clear_cb(void *e, void *p)
         if (clr_seen == 1) VRT_COUNT("clear.nested.first-handed-over-owns-a-map");
         if (clr_seen == clr_size) VRT_COUNT("clear.nested.last-handed-over-owns-a-map");
         if (clr_seen > 1 && clr_seen < clr_size) VRT_COUNT("clear.nested.inner-entry-owns-a-map");
+        inner_cb = !SUB[v]->nullcb;
         sub_destroy(v);
+        /* the callback is still running: its arguments must still show the entry's own key and value */
+        VRT_CHECK(i->key == key_at_entry && i->val == val_at_entry && i->_ == it_at_entry, "map.clear.iterator-changed-while-the-callback-runs",
+                  "clear callback for value %d: after clearing the entry's own inner map the iterator argument reads key %p / val %p, at entry it read %p / %p",
+                  v, i->key, i->val, key_at_entry, val_at_entry);
+        VRT_CHECK(*(const int *)p == CLR_COOKIE_VALUE, "map.clear.priv-changed-while-the-callback-runs", "the caller's object behind the clear priv reads %#x after the nested clear", (unsigned)*(const int *)p);
+        VRT_COUNT("clear.nested.arguments-reread-after-inner-clear");
+        if (inner_cb) VRT_COUNT("clear.nested.arguments-reread-after-inner-clear-with-callback");
         VRT_OP2("map.clear", "callback=1 entries=%ld (goes on after the nested clear in the callback for value %ld)", clr_size, v);
     }
     release_objs(v);            /* poison + free: the map must not look at them again */
+    VRT_CHECK(i->key == key_at_entry && i->val == val_at_entry && i->_ == it_at_entry, "map.clear.iterator-changed-while-the-callback-runs",
+              "clear callback for value %d: at its end the iterator argument reads key %p / val %p, at entry it read %p / %p",
+              v, i->key, i->val, key_at_entry, val_at_entry);
     VRT_COUNT("clear.handed-over");
 }
 
@@ -1039,7 +1131,7 @@ static void audit_full(void)
 /* ------------------------------------------------------------------ */
 /* state: create / destroy / apply                                     */
 /* ------------------------------------------------------------------ */
-enum { K_INSERT = 1, K_FIND, K_ERASE, K_ERASE_IT, K_SIZE, K_CLEAR };
+enum { K_INSERT = 1, K_FIND, K_ERASE, K_ERASE_IT, K_SIZE, K_CLEAR, K_REKEY };
 #define OP(kind, v, ko, vo, fl) \
     ((uint32_t)(kind) | (uint32_t)(v) << 4 | (uint32_t)(ko) << 16 | (uint32_t)(vo) << 18 | (uint32_t)(fl) << 20)
 #define OP_KIND(o) ((int)((o) & 15))
@@ -1051,6 +1143,12 @@ enum { K_INSERT = 1, K_FIND, K_ERASE, K_ERASE_IT, K_SIZE, K_CLEAR };
 static int apply_ex(uint32_t op, int level)
 {
     const int kind = OP_KIND(op), v = OP_V(op), ko = OP_KO(op), vo = OP_VO(op), fl = OP_FL(op);
+    if (kind == K_REKEY) {      /* v = the new content, ko = which call follows (not a key object) */
+        if (v >= nv || (vo >= no && vo != VO_NULL) || !do_rekey(v, ko, vo, fl, level)) return 0;
+        hist = vrt_mix(hist, op);
+        if (level >= 2) audit_full();
+        return 1;
+    }
     if (v >= nv || ko >= no || (vo >= no && vo != VO_NULL)) return 0;
     switch (kind) {
     case K_INSERT:
@@ -1097,7 +1195,7 @@ static void setup(int nvalues, int nobjs, int descending, int smode)
     memset(K, 0, (size_t)nv * sizeof(K[0]));
     memset(V, 0, (size_t)nv * sizeof(V[0]));
     memset(M, 0, (size_t)nv * sizeof(M[0]));
-    Mn = 0; hist = 0x1157; cleared_once = 0; lean = 0;
+    Mn = 0; hist = 0x1157; cleared_once = 0; lean = 0; no_other = 0; rekeyed = 0;
     nest_reset(nv);
     memset(last_d, 0, (size_t)nv * sizeof(last_d[0]));
     memset(gen, 0, (size_t)nv * sizeof(gen[0]));
@@ -1150,6 +1248,10 @@ static int build_alphabet(int nvalues, int nobjs, int variant, uint32_t *al)
                 al[n++] = OP(K_ERASE, v, o, 0, 1);
                 al[n++] = OP(K_ERASE_IT, v, o, tvo, 0);
                 al[n++] = OP(K_ERASE_IT, v, o, tvo, 1);
+                if (o == 0) {   /* the caller rewrites the key object of a miss to value v, then: insert / find or erase */
+                    al[n++] = OP(K_REKEY, v, 0, 0, 1);
+                    al[n++] = OP(K_REKEY, v, 1, 0, 1);
+                }
                 break;
             case AL_REDUCED:
                 al[n++] = OP(K_INSERT, v, o, tvo, 1);
@@ -1399,6 +1501,7 @@ static void run_random(uint64_t idx)
         r = (int)vrt_below(&g, 1000);
         if (r < 3) op = OP(K_CLEAR, 0, 0, 0, fl);
         else if (r < 20) op = OP(K_SIZE, 0, 0, 0, 0);
+        else if (r < 70) { static const int sec[3] = { 0, 2, 3 }; op = OP(K_REKEY, v, sec[vrt_below(&g, 3)], vo, fl); }
         else {
             static const int w[3][4] = {    /* insert, find, erase, erase_it (per mille, cumulative) */
                 { 640, 760, 880, 1000 },
@@ -1513,6 +1616,10 @@ static const char *const required[] = {
     "op.insert.arrives.other-map-end", "op.find.arrives.other-map-end", "op.erase.arrives.other-map-end",
     "op.insert.arrives.names-key-pointer.value-absent", "op.find.arrives.names-key-pointer.value-absent",
     "op.erase.arrives.names-key-pointer.value-absent",
+    /* the caller changed the key object of a miss before the next call */
+    "rekey.insert.new", "rekey.insert.existing", "rekey.find.present", "rekey.find.absent", "rekey.erase.present", "rekey.erase.absent",
+    "rekey.new-content.between-stored-keys", "rekey.new-content.above-all-stored-keys", "rekey.new-content.below-all-stored-keys",
+    "rekey.old-content-smaller", "rekey.old-content-larger",
     NULL,       /* end of the list under a sanitizer (freed blocks sit in its quarantine there) */
     /* plain allocator (rel-native): the node memory of an erased entry has been handed out again to a later insert */
     "op.insert.arrives.gone-entry.node-memory-reused", "op.find.arrives.gone-entry.node-memory-reused",
@@ -1529,7 +1636,8 @@ static const char *const required_clear[] = {
     "nested.attached", "clear.nested.handed-over", "clear.nested.maps-cleared", "clear.nested.overwrite-verified", "clear.nested.null-callback",
     "clear.nested.first-handed-over-owns-a-map", "clear.nested.last-handed-over-owns-a-map", "clear.nested.inner-entry-owns-a-map",
     "clear.nested.several-owners", "clear.nested.owners-and-plain-entries", "clear.nested.outer-went-on-after-inner-clear",
-    "clear.nested.reused", "op.clear.with-nested-clears", NULL
+    "clear.nested.reused", "op.clear.with-nested-clears",
+    "clear.nested.arguments-reread-after-inner-clear", "clear.nested.arguments-reread-after-inner-clear-with-callback", NULL
 };
 static const struct vrt_harness H = { "map", ncases, run_case, winit, wfini, required, 16 };
 static const struct vrt_harness Hplain = { "map", ncases, run_case, winit, wfini, required_plain, 16 };
